@@ -8,6 +8,7 @@
   (order does not matter, partial sums stay below the final ones).
 -/
 import Robotools.Proofs.ReplayLemmas
+import Robotools.Proofs.AmtLemmas
 import Mathlib.Tactic.Ring
 import Mathlib.Tactic.Linarith
 import Mathlib.Data.List.Sort
@@ -612,6 +613,217 @@ theorem interp_rd {dev : Device} {st : RState} {w : World} {I} (hM : Match st w)
     rfl
   · exact ⟨by rw [hsD.name, hRdL.name], by rw [hsD.geom, hRdL.geom], by rw [hsD.minV, hRdL.minV],
       by rw [hsD.maxV, hRdL.maxV], rfl⟩
+
+/-! ### Executing the micro-operations of `distribute` -/
+
+theorem exec_fail_mem (w : World) (ms : List Micro) (e : Err) (h : Micro.fail e ∈ ms) :
+    (w.exec ms).2 ≠ none := by
+  induction ms generalizing w with
+  | nil => cases h
+  | cons m rest ih =>
+    cases hm : w.micro m with
+    | error e' => rw [World.exec_cons_error _ hm]; simp
+    | ok w' =>
+      rw [World.exec_cons_ok _ hm]
+      rcases List.mem_cons.1 h with h' | h'
+      · subst h'; simp [World.micro] at hm
+      · exact ih w' h'
+
+/-- The additions of `distribute` (one per destination well ID, each `v` with the carried composition). -/
+def adsOf (g : Geom) (dst : Nat) (v : Rat) (dws : List String) : List Micro :=
+  dws.map fun w' => match g.resolveFlat w' with
+    | some i => Micro.ad dst i v .carry
+    | none => Micro.fail .reject
+
+theorem adsOf_resolved (g : Geom) (dst : Nat) (v : Rat) :
+    ∀ dws : List String, (∀ e, Micro.fail e ∉ adsOf g dst v dws) →
+      ∃ js : List Nat, dws.map g.resolveFlat = js.map some ∧ adsOf g dst v dws = js.map fun j => Micro.ad dst j v .carry := by
+  intro dws
+  induction dws with
+  | nil => intro _; exact ⟨[], rfl, rfl⟩
+  | cons d rest ih =>
+    intro h
+    have hrest : ∀ e, Micro.fail e ∉ adsOf g dst v rest := by
+      intro e he
+      exact h e (by unfold adsOf at he ⊢; rw [List.map_cons]; exact List.mem_cons_of_mem _ he)
+    obtain ⟨js, h1, h2⟩ := ih hrest
+    cases hd : g.resolveFlat d with
+    | none =>
+      exfalso
+      apply h .reject
+      unfold adsOf
+      rw [List.map_cons]
+      simp [hd]
+    | some j =>
+      refine ⟨j :: js, by simp [hd, h1], ?_⟩
+      unfold adsOf at h2 ⊢
+      rw [List.map_cons, List.map_cons, h2]
+      simp [hd]
+
+theorem zip_replicate {α β γ} (l : List α) (b : β) (c : γ) :
+    ((l.zip (List.replicate l.length b)).zip (List.replicate l.length c)) = l.map fun a => ((a, b), c) := by
+  induction l with
+  | nil => rfl
+  | cons a rest ih => simp [List.replicate_succ, ih]
+
+theorem compileAdd_carry (D : Labware) (dst : Nat) (dws : List String) (v : Rat) (label : Option String)
+    (hv : ¬ v < 0) (hne : dws ≠ []) :
+    compileAdd D dst (.vec dws) (.scalar v) label none true = adsOf D.geom dst v dws ++ [.log dst label] := by
+  unfold compileAdd adsOf
+  simp only [Arr.flattenF, broadcast1, List.length_replicate, ne_eq, not_true_eq_false, if_false, if_true]
+  have hany : ¬ ((List.replicate dws.length v).any (· < 0)) = true := by
+    simp [hv]
+  rw [if_neg hany]
+  simp only [zip_replicate, List.map_map]
+  rfl
+
+theorem compileRemove_scalar (S : Labware) (src : Nat) (wid : String) (x : Rat) (label : Option String)
+    (hx : ¬ x < 0) :
+    compileRemove S src (.scalar wid) (.scalar x) label
+      = [match S.geom.resolveFlat wid with | some i => Micro.rm src i x | none => Micro.fail .reject,
+         .log src label] := by
+  unfold compileRemove
+  simp [Arr.flattenF, broadcast1, hx]
+  cases S.geom.resolveFlat wid <;> rfl
+
+/-! ### `reagent_distribution`: one failing micro-operation, or exactly one `R;` record -/
+
+/-- The `R;` record `reagent_distribution` emits for accepted arguments. -/
+def rdFields (cfg : Cfg) (a : RDArgs) : RFields :=
+  { srcLabel := a.srcLabel, srcId := a.srcRackId, srcType := a.srcRackType, srcStart := a.srcStart.v,
+    srcEnd := a.srcEnd.v, dstLabel := a.dstLabel, dstId := a.dstRackId, dstType := a.dstRackType,
+    dstStart := a.dstStart.v, dstEnd := a.dstEnd.v, vol := a.vol, liquidClass := a.liquidClass,
+    ditiReuse := a.ditiReuse, multiDisp := adaptMultiDisp cfg.maxVolume a.vol.q a.multiDisp,
+    direction := if a.direction = "left_to_right" then 0 else 1,
+    excluded := a.exclude.mergeSort (· ≤ ·) }
+
+theorem compileRD_cases (cfg : Cfg) (a : RDArgs) :
+    (∃ e, compileRD cfg a = [.fail e]) ∨ compileRD cfg a = [.emit (.rd (rdFields cfg a))] := by
+  unfold rdFields
+  unfold compileRD
+  simp only [exceptMicros]
+  repeat' split
+  all_goals first
+    | exact Or.inl ⟨_, rfl⟩
+    | exact Or.inr rfl
+
+/-! ### Micro-operations that add nothing the replay interprets -/
+
+def quiet (m : Micro) : Prop := Micro.noEmit m = true ∨ Micro.neutral m = true
+
+theorem quiet_exec (w : World) (ms : List Micro) (h : ∀ m ∈ ms, quiet m) :
+    ∃ nrecs, (∀ r ∈ nrecs, Rec.neutral r = true) ∧ (w.exec ms).1.recs = w.recs ++ nrecs := by
+  induction ms generalizing w with
+  | nil => exact ⟨[], by simp, by simp⟩
+  | cons m rest ih =>
+    cases hm : w.micro m with
+    | error e => rw [World.exec_cons_error _ hm]; exact ⟨[], by simp, by simp⟩
+    | ok w' =>
+      rw [World.exec_cons_ok _ hm]
+      obtain ⟨n2, hn2, hr2⟩ := ih w' (fun m' hm' => h m' (List.mem_cons_of_mem _ hm'))
+      rcases h m List.mem_cons_self with hq | hq
+      · exact ⟨n2, hn2, by rw [hr2, recs_micro_noEmit hq hm]⟩
+      · obtain ⟨n1, hn1, hr1, _⟩ := neutral_micro hq hm
+        refine ⟨n1 ++ n2, ?_, by rw [hr2, hr1, List.append_assoc]⟩
+        intro r hr
+        rcases List.mem_append.1 hr with h' | h'
+        · exact hn1 r h'
+        · exact hn2 r h'
+
+/-! ### `distribute` as a safe block -/
+
+theorem compileRemove_neg (S : Labware) (src : Nat) (wid : String) (x : Rat) (label : Option String)
+    (hx : x < 0) : compileRemove S src (.scalar wid) (.scalar x) label = [.fail .reject] := by
+  unfold compileRemove
+  simp [Arr.flattenF, broadcast1, hx]
+
+theorem compileAdd_neg (D : Labware) (dst : Nat) (dws : List String) (v : Rat) (label : Option String)
+    (hv : v < 0) (hne : dws ≠ []) :
+    compileAdd D dst (.vec dws) (.scalar v) label none true = [.fail .reject] := by
+  unfold compileAdd
+  simp only [Arr.flattenF, broadcast1, List.length_replicate, ne_eq, not_true_eq_false, if_false]
+  have hany : ((List.replicate dws.length v).any (· < 0)) = true := by
+    cases dws with
+    | nil => exact absurd rfl hne
+    | cons d rest => simp [List.replicate_succ, hv]
+  rw [if_pos hany]
+
+theorem compileRemove_quiet (S : Labware) (src : Nat) (wells : Arr String) (vols : Arr Rat)
+    (label : Option String) : ∀ m ∈ compileRemove S src wells vols label, quiet m := by
+  unfold compileRemove
+  simp only
+  split
+  · intro m hm; simp only [List.mem_singleton] at hm; subst hm; exact Or.inl rfl
+  · split
+    · intro m hm; simp only [List.mem_singleton] at hm; subst hm; exact Or.inl rfl
+    · intro m hm
+      rcases List.mem_append.1 hm with h | h
+      · obtain ⟨p, _, rfl⟩ := List.mem_map.1 h
+        split <;> exact Or.inl rfl
+      · simp only [List.mem_singleton] at h; subst h; exact Or.inl rfl
+
+theorem compileAdd_quiet (D : Labware) (dst : Nat) (wells : Arr String) (vols : Arr Rat)
+    (label : Option String) (comps : Option (List (Option Comp))) (carryAll : Bool) :
+    ∀ m ∈ compileAdd D dst wells vols label comps carryAll, quiet m := by
+  unfold compileAdd
+  simp only
+  split
+  · intro m hm; simp only [List.mem_singleton] at hm; subst hm; exact Or.inl rfl
+  · split
+    · intro m hm; simp only [List.mem_singleton] at hm; subst hm; exact Or.inl rfl
+    · split
+      · intro m hm; simp only [List.mem_singleton] at hm; subst hm; exact Or.inl rfl
+      · intro m hm
+        rcases List.mem_append.1 hm with h | h
+        · obtain ⟨p, _, rfl⟩ := List.mem_map.1 h
+          split <;> exact Or.inl rfl
+        · simp only [List.mem_singleton] at h; subst h; exact Or.inl rfl
+
+/-- The source range of the `R;` record addresses the real well of the source column on this device. -/
+def SrcOK (dev : Device) (g : Geom) : Prop :=
+  ∀ c, c < g.cols → ∀ m, m < g.nRowIds →
+    ∃ rc, dev.wellOf g (1 + g.nRowIds * c + m) = some rc ∧ g.flat rc = c
+
+/-- Side conditions under which the `R;` record of `distribute` means what the tracking did: source and
+    destination are different labware, the device numbers the source range the way the record is read
+    (EVO; on a Fluent only troughs with one virtual row — known finding F3), a non-negative column index,
+    and destination wells with pairwise distinct positions (the quantifier of C01). -/
+structure DistOK (dev : Device) (S D : Labware) (a : DistArgs) : Prop where
+  ne : a.src ≠ a.dst
+  src : SrcOK dev S.geom
+  col : 0 ≤ a.srcCol
+  nodup : ∀ ps, (a.dstWells.flattenF.mapM fun w => dev.pos D.geom w) = .ok ps → ps.Nodup
+
+theorem resolve_trough_col {g : Geom} {vr : Nat} (hvr : g.vrows = some vr) {c i : Nat}
+    (h : g.resolveFlat (wellId 0 c) = some i) : i = c ∧ c < g.cols := by
+  unfold Geom.resolveFlat at h
+  cases hres : g.resolve (wellId 0 c) with
+  | none => rw [hres] at h; cases h
+  | some rc =>
+    rw [hres] at h
+    simp only [Option.map_some, Option.some.injEq] at h
+    obtain ⟨r', c', hr', hc', heq, hrc⟩ := resolve_some' hres
+    have hr26 : r' < 26 := by
+      have : g.nRowIds ≤ 26 := by unfold Geom.nRowIds; exact Nat.min_le_left _ _
+      omega
+    obtain ⟨_, hcc⟩ := wellId_injective (by omega) hr26 heq
+    subst hcc
+    simp only [Geom.isTrough, hvr, Option.isSome_some, if_true] at hrc
+    rw [hrc] at h
+    simp only [Geom.flat] at h
+    exact ⟨by omega, hc'⟩
+
+/-- The arguments `distribute` hands to `reagent_distribution`. -/
+def distRD (S D : Labware) (a : DistArgs) (ps : List Nat) (s e : Nat) : RDArgs :=
+  { srcLabel := S.name, srcStart := { v := 1 + (S.geom.nRowIds : Int) * a.srcCol },
+    srcEnd := { v := 1 + (S.geom.nRowIds : Int) * a.srcCol + (S.geom.nRowIds : Int) - 1 },
+    dstLabel := D.name, dstStart := { v := (s : Int) }, dstEnd := { v := (e : Int) }, vol := a.vol,
+    ditiReuse := a.ditiReuse, multiDisp := a.multiDisp,
+    exclude := List.map Int.ofNat
+      (List.filter (fun p => !(ps.mergeSort (· ≤ ·)).contains p)
+        (List.map (fun x => x + s) (List.range (e + 1 - s)))),
+    liquidClass := a.liquidClass, direction := a.direction, srcRackId := a.srcRackId,
+    srcRackType := a.srcRackType, dstRackId := a.dstRackId, dstRackType := a.dstRackType }
 
 end Dist
 end Robotools
